@@ -36,11 +36,11 @@ func (c15) Describe() CheckInfo {
 		},
 		RealCode:       []string{"gopatch main()/mainCmd.Run, findFiles/findGoFiles, internal/*"},
 		Stubs:          []string{"package os (simulated filesystem incl. symlinks, fifo, shuffled readdir)", "path/filepath Walk re-hosted on the simulated os", "io/ioutil"},
-		RequiredProbes: []string{"excluded-dir-nested", "symlink-to-dir", "symlink-to-file", "dir-named-like-go-file", "overlapping-args", "duplicate-args", "explicit-file-in-excluded-dir", "dotdot-respelling", "absolute-arg", "non-go-file", "absolute-noncanonical-arg", "readdir-shuffled", "permuted-rerun", "dot-named-go-file", "hard-link", "non-directory-with-excluded-name", "symlink-argument"},
+		RequiredProbes: []string{"excluded-dir-nested", "symlink-to-dir", "symlink-to-file", "dir-named-like-go-file", "overlapping-args", "duplicate-args", "explicit-file-in-excluded-dir", "dotdot-respelling", "absolute-arg", "non-go-file", "absolute-noncanonical-arg", "readdir-shuffled", "permuted-rerun", "dot-named-go-file", "hard-link", "non-directory-with-excluded-name", "symlink-argument", "unparseable-file-in-requested-set", "excluded-dir-named-like-go-file"},
 	}
 }
 
-var c15DirNames = []string{"a", "b", "pkg", "internal", "cmd", "vendor", "testdata", ".git", ".x", "_gen", "_", "vendor2", "testdata_old", "x.go", "sub", "v.endor", "Vendor"}
+var c15DirNames = []string{"a", "b", "pkg", "internal", "cmd", "vendor", "testdata", ".git", ".x", "_gen", "_", "vendor2", "testdata_old", "x.go", "sub", "v.endor", "Vendor", "_old.go", ".bak.go", "vendor.go", "testdata.go", ".go"}
 
 func c15Excluded(name string) bool {
 	return name == "vendor" || name == "testdata" || strings.HasPrefix(name, ".") || strings.HasPrefix(name, "_")
@@ -80,6 +80,7 @@ func (c15) Gen(env *Env, seed uint64, tier string, i int) *Case {
 	id := 0
 	var gofiles, others, symlinks []string
 	broken := map[string]bool{}
+	wantBroken := r.Chance(1, 6)
 	insideExcluded := func(p string) bool {
 		rel := strings.TrimPrefix(p, ProjDir+"/")
 		parts := strings.Split(rel, "/")
@@ -107,6 +108,16 @@ func (c15) Gen(env *Env, seed uint64, tier string, i int) *Case {
 			}
 			p := d + "/" + name
 			data := c15GoFile(id)
+			if !insideExcluded(p) && wantBroken && len(broken) == 0 {
+				// an unparseable file among the requested ones: it fails, every
+				// other requested file must be processed all the same
+				data = []byte("package broken\n\nfunc {{{ vfCnt1\n")
+				c.SetNode(world.NodeSpec{Path: p, Kind: "file", Data: data})
+				broken[p] = true
+				gofiles = append(gofiles, p)
+				c.Extra["broken"] = p
+				continue
+			}
 			if insideExcluded(p) && r.Chance(1, 4) {
 				// would produce an error if it were (wrongly) processed;
 				// never named explicitly
@@ -383,6 +394,9 @@ func (c15) Eval(env *Env, c *Case) []Violation {
 		}
 		if n.Kind == "dir" && strings.HasSuffix(n.Path, ".go") {
 			env.Probe("dir-named-like-go-file")
+			if c15Excluded(parts[len(parts)-1]) {
+				env.Probe("excluded-dir-named-like-go-file")
+			}
 		}
 		if n.Kind == "file" && !strings.HasSuffix(n.Path, ".go") {
 			env.Probe("non-go-file")
@@ -483,7 +497,17 @@ func (c15) Eval(env *Env, c *Case) []Violation {
 	}
 	var wantPrint bytes.Buffer
 	wantFinal := map[string][]byte{}
+	brokenP := c.Extra["broken"]
+	brokenExpected := brokenP != "" && expSet[brokenP]
+	if brokenExpected {
+		env.Probe("unparseable-file-in-requested-set")
+	}
 	for _, p := range expected {
+		if p == brokenP {
+			// fails to parse: stays as it is, prints nothing
+			wantFinal[p] = origData[p]
+			continue
+		}
 		b := solo(p, origData[p])
 		if b == nil {
 			env.Probe("solo-reference-failed")
@@ -498,7 +522,11 @@ func (c15) Eval(env *Env, c *Case) []Violation {
 			env.Probe("run-did-not-exit")
 			return
 		}
-		if r.Exit != 0 || len(r.Stderr) != 0 {
+		if brokenExpected {
+			if r.Exit == 0 {
+				add("clean-run", "unparseable-file-not-reported/"+tag, fmt.Sprintf("exit 0 although the requested file %s does not parse (args %v)", brokenP, r.W.Args))
+			}
+		} else if r.Exit != 0 || len(r.Stderr) != 0 {
 			add("clean-run", "error/"+tag, fmt.Sprintf("exit %d, stderr %q (args %v); a file outside the requested set was probably processed", r.Exit, clip(string(r.Stderr), 400), r.W.Args))
 		}
 		fin := map[string]world.FileState{}
@@ -514,6 +542,8 @@ func (c15) Eval(env *Env, c *Case) []Violation {
 			if expSet[s.Path] {
 				switch {
 				case bytes.Equal(g.Data, wantFinal[s.Path]):
+				case s.Path == brokenP:
+					add("touched-other", "unparseable-file-modified/"+tag, fmt.Sprintf("%s does not parse but was modified (args %v)", s.Path, r.W.Args))
 				case bytes.Equal(g.Data, s.Data):
 					add("not-processed", tag, fmt.Sprintf("%s should have been processed but is unchanged (args %v, expected set %v)", s.Path, r.W.Args, expected))
 				default:
@@ -564,7 +594,7 @@ func (c15) Eval(env *Env, c *Case) []Violation {
 		if d := SnapEqual(init, r.Final); d != "" {
 			add("touched-other", "print-mode-wrote/"+tag, d)
 		}
-		if r.Exit != 0 || len(r.Stderr) != 0 {
+		if !brokenExpected && (r.Exit != 0 || len(r.Stderr) != 0) {
 			add("clean-run", "error-print/"+tag, fmt.Sprintf("exit %d, stderr %q (args %v)", r.Exit, clip(string(r.Stderr), 400), r.W.Args))
 		}
 	}
